@@ -903,6 +903,41 @@ fn run_decode(c: &Case, oracle: &mut Vec<String>) -> String {
     if out != again {
         oracle.push("C01: the decoded entries depend on the read buffer sizes".to_string());
     }
+    // the flat iterator (Archive::entries_with_password) walks the same normal entries as entries() + SolidEntry::entries
+    {
+        let nested: Option<Vec<Vec<u8>>> = guard(|| lib_decode(&bytes, pw.as_deref(), &[4096])).ok().and_then(|r| r.ok()).and_then(|v| {
+            let mut names = Vec::new();
+            for d in v {
+                match d {
+                    Dec::N(n) => names.push(n.name),
+                    Dec::S { inner: Ok((ns, end)), .. } if end == "ok" => names.extend(ns.into_iter().map(|n| n.name)),
+                    _ => return None,
+                }
+            }
+            Some(names)
+        });
+        if let Some(nested) = nested {
+            let b2 = bytes.clone();
+            let p2 = pw.clone();
+            let flat: Option<Vec<Vec<u8>>> = guard(move || -> io::Result<Vec<Vec<u8>>> {
+                let mut a = Archive::read_header(&b2[..])?;
+                let mut v = Vec::new();
+                for (i, e) in a.entries_with_password(p2.as_deref()).enumerate() {
+                    if i > 100_000 {
+                        break;
+                    }
+                    v.push(e?.header().path().as_str().as_bytes().to_vec());
+                }
+                Ok(v)
+            })
+            .ok()
+            .and_then(|r| r.ok());
+            if flat.as_ref() != Some(&nested) {
+                oracle.push(format!("C01: Archive::entries_with_password yields {:?} entries, entries() + SolidEntry::entries yields {}",
+                    flat.map(|f| f.len()), nested.len()));
+            }
+        }
+    }
     if out.contains("PANIC") || again.contains("PANIC") {
         oracle.push("C07: the decode pipeline panicked".to_string());
     }
@@ -1175,6 +1210,10 @@ fn scenario_arch_items(r: &mut Rng, k: usize) -> (Vec<Item>, String, Vec<usize>)
     for i in 0..cnt {
         let (cfg, _) = grid(r, k + 13 * i);
         let n = gen_len(r, false).min(600);
+        if r.chance(1, 5) {
+            // a solid block without entries in front of / between the others
+            items.push(Item::SB(cfg.clone(), Vec::new(), Vec::new()));
+        }
         items.push(match r.below(6) {
             0 => Item::N(gen_other_kind(r, i)),
             1 | 2 => Item::N(gen_spec(r, 'w', &cfg, i, n)),
